@@ -163,7 +163,11 @@ def sites(fb, body):
                     out.append(("loop-exits", c, f"early exits return {sorted(str(v) for v in distinct)}"))
         elif p.endswith("::collect") or p.endswith("::sum") or p.endswith("::product"):
             dty = body["locals"][c.dest["l"]] if c.dest is not None and not c.dest.get("p") else ""
-            if re.match(r"^std::(result::Result|option::Option)<", dty):
+            m_opt = re.match(r"^std::option::Option<(.*)>$", dty)
+            if m_opt and re.match(r"^std::collections::(HashSet|HashMap|BTreeSet|BTreeMap)<", m_opt.group(1)):
+                # Option<set/map>: the only early outcome is the constant None, whichever element produced it; otherwise a set
+                out.append(("collect-set", c, dty[:60]))
+            elif re.match(r"^std::(result::Result|option::Option)<", dty):
                 out.append(("collect-err", c, dty[:80]))
             elif re.search(r"^std::collections::(HashSet|HashMap|BTreeSet|BTreeMap)<", dty):
                 out.append(("collect-set", c, dty[:60]))
